@@ -305,6 +305,37 @@ func TestC15Standin(t *testing.T) {
 			}
 		}
 	}
+	// torn file header: a file that holds only a part of its 8 byte header (the service was killed while the file
+	// was created) opens as an empty cache and can be used
+	{
+		full, err := os.ReadFile(func() string {
+			p := filepath.Join(dir, "hdr.cache")
+			if cf, err := NewCacheFile(p); err == nil {
+				cf.file.Close()
+			}
+			return p
+		}())
+		refused := 0
+		if err == nil && len(full) >= 8 {
+			for cut := 1; cut < 8; cut++ {
+				p2 := filepath.Join(dir, fmt.Sprintf("hdrcut%d.cache", cut))
+				os.WriteFile(p2, full[:cut], 0o644)
+				evals++
+				cf, err := NewCacheFile(p2)
+				if err != nil {
+					refused++
+					continue
+				}
+				if len(cf.streamInfos) != 0 {
+					refused++
+				}
+				cf.file.Close()
+			}
+		}
+		if refused > 0 {
+			failures = append(failures, c15failure{Class: "torn-header-refuses-open", Input: "a cache file cut inside its 8 byte header (7 cut points)", Detail: fmt.Sprintf("%d cut points make NewCacheFile fail or load records", refused)})
+		}
+	}
 	// inputs outside the type invariant of a chunk list (known findings when they fail)
 	{
 		bad := map[string][]index.Data{
